@@ -292,7 +292,7 @@ fn decoder_part(c: &mut Ctx) {
 }
 
 pub fn run(c: &mut Ctx) {
-    c.note("rule", json!("for every accepted payment of real histories: candidates = right pair x {bf+1, random, zero, negated, bf of earlier payments}, pair of the new state / of earlier payments / of other channels and sessions / fresh x right bf, foreign pair with its own bf, several wrong ones in a row and then the right one (which must still complete and yield a token the customer accepts); oracle = recomputed Pedersen opening of the commitment atom of the accepted pay proof. Decoder: honest pair encodings with lock / secret / index altered, bit flips, digests that are not canonical scalars, reference-recomputed pairs at any index. Distinct = distinct (candidate kind, payment) and distinct mutated encodings."));
+    c.note("rule", json!("for every accepted payment of real histories: candidates = right pair x {bf+1, random, zero, negated, bf of earlier payments}, pair of the new state / of earlier payments / of other channels and sessions / fresh x right bf, foreign pair with its own bf, several wrong ones in a row and then the right one (which must still complete and yield a token the customer accepts); oracle = recomputed Pedersen opening of the commitment atom of the accepted pay proof. Decoder: honest pair encodings with lock / secret / index altered, bit flips, digests that are not canonical scalars, reference-recomputed pairs at any index. Distinct = distinct (candidate kind, payment) and distinct mutated encodings. Added later: band digests and crafted pair generation, the C02 forger's committed-lock plans under all strategies. A payment whose revocation commitment uses the blinding factor zero."));
     let m = match fixtures::merchant(c.seed, "m0") {
         Ok(m) => m,
         Err(e) => return c.inconclusive(&e),
